@@ -23,6 +23,37 @@ pub struct Args {
     pub rest: Vec<String>,
 }
 
+/// A range of `width` loopback ports that no other engine process uses while this process lives: slots are claimed
+/// through lock files under the temp dir (`verif-portslots/slot-K`, holding the owner's pid; a slot whose owner is gone is
+/// taken over). Engines that start real listeners take their ports from their slot, so that two engines running at
+/// the same time (several checks in parallel) never meet on a port — an engine that found another process's
+/// listener on "its" port used to report what that listener did.
+pub fn port_slot(width: usize) -> usize {
+    static SLOT: std::sync::OnceLock<usize> = std::sync::OnceLock::new();
+    *SLOT.get_or_init(|| {
+        let dir = std::env::temp_dir().join("verif-portslots");
+        let _ = std::fs::create_dir_all(&dir);
+        let nslots = (32000 - 12000) / width.max(1);   // below the ephemeral range (32768..)
+        let me = std::process::id();
+        for round in 0..2 {
+            for k in 0..nslots {
+                let f = dir.join(format!("slot-{width}-{k}"));
+                match std::fs::OpenOptions::new().write(true).create_new(true).open(&f) {
+                    Ok(mut h) => { use std::io::Write; let _ = write!(h, "{me}"); return 12000 + k * width; }
+                    Err(_) if round == 1 => {
+                        // stale? (the owner is gone)
+                        let owner = std::fs::read_to_string(&f).ok().and_then(|t| t.trim().parse::<u32>().ok());
+                        let alive = owner.map(|p| std::path::Path::new(&format!("/proc/{p}")).exists()).unwrap_or(false);
+                        if !alive { let _ = std::fs::remove_file(&f); if let Ok(mut h) = std::fs::OpenOptions::new().write(true).create_new(true).open(&f) { use std::io::Write; let _ = write!(h, "{me}"); return 12000 + k * width; } }
+                    }
+                    Err(_) => {}
+                }
+            }
+        }
+        12000 + (me as usize % nslots.max(1)) * width
+    })
+}
+
 static JOURNAL: std::sync::OnceLock<std::path::PathBuf> = std::sync::OnceLock::new();
 
 /// Note which case lines the real code is about to run (`<out>/journal.txt`, rewritten each time). If the
